@@ -252,6 +252,11 @@ func vxShared(fr *frame, args []value) value {
 					if m, ok := st[k].(*omap); ok && m != nil {
 						s.shared[m] = true
 					}
+					if a, ok := st[k].(array); ok {
+						for e := range a {
+							s.shared[&a[e]] = true
+						}
+					}
 				}
 			}
 		}
@@ -262,7 +267,7 @@ func vxShared(fr *frame, args []value) value {
 }
 
 func vxFrameFile(fr *frame, args []value) value {
-	if fr.caller != nil {
+	if fr.caller != nil && !fr.caller.goexit {
 		fr.caller.fileOverride = labelOf(args[0])
 	}
 	return nil
